@@ -804,7 +804,11 @@ def _add_ext_stream():
 rt_prop("C07", ["task", "cancel", "comb"],
         "Proof (Props/C07.lean): a task is evicted only if its poll was pending, its waker was not woken during the poll and no clone "
         "of it survives anywhere (evict_only_if_unreachable, held_task_never_discarded); done iff no task, no effect, no event "
-        "(done_iff); a host sees end-of-stream exactly when the command is done (host_sees_done_exactly). Completeness of eviction is "
+        "(done_iff); a host sees end-of-stream exactly when the command is done (host_sees_done_exactly). SOUNDNESS of eviction is "
+        "proved semantically (evict_sound, evict_sound_runTask, poll_parks; invariant K2 in Lemmas/K2*.lean, by induction on the poll "
+        "for every fuel, world and nesting): one poll of a task block without hosted commands leaves the polling waker registered at "
+        "every request / stream leaf, join-handle queue or self-wake it is suspended at, so a task that run_task discards is "
+        "suspended only at requests whose channel has closed (deadOnlyB). Completeness of eviction is "
         "stated (evict_complete_goal), checked per step by the correspondence on the modelled fragment (`d`, `t` counters). It is "
         "FALSE on the real code outside that fragment: a task that retains a clone of its own waker (FuturesUnordered / "
         "flatten_unordered behind StreamBuilder::then_stream on a stream) and then waits on a dropped one-shot request is never evicted "
